@@ -391,7 +391,7 @@ fn exec_smoke(toks: &[&str]) -> String {
         let r = std::panic::catch_unwind(move || smoke_inner(steps, mu, mr, repack_all, seed));
         let _ = tx.send(r.unwrap_or_else(|_| "panic".into()));
     });
-    let res = rx.recv_timeout(std::time::Duration::from_secs(25));
+    let res = rx.recv_timeout(std::time::Duration::from_secs(25 * crate::util::load_factor()));
     std::panic::set_hook(Box::new(|_| {}));
     let panics = PANICS.lock().unwrap().clone();
     if let Some(p) = panics.first() {
